@@ -6,7 +6,7 @@ namespace Zvbi.Search
 set_option maxRecDepth 100000
 
 theorem cexD7_fixed_code2 :
-    codeFwd exAb (prepare Shape.repaired cexD7Turn 1) cexD7x2.1.toNat cexD7e0 cexD7x2.2.2 = 1 := by
+    codeFwd Shape.repaired exAb (prepare Shape.repaired cexD7Turn 1) cexD7x2.1.toNat cexD7e0 cexD7x2.2.2 = 1 := by
   decide +kernel
 
 end Zvbi.Search
